@@ -82,7 +82,7 @@ def run(tier, chk):
         v = dict(t, a=list(reversed(t['a']))) if t['o'] in AC else {'k': 'none'}
         pairs.append([t, v])
     seg = (segment_twin_trees(rnd, 300 if quick else 3000) + cancelling_sum_trees(rnd, 600 if quick else 6000)
-           + slice_merge_trees(rnd, 300 if quick else 3000))
+           + slice_merge_trees(rnd, 300 if quick else 3000) + deep_variant_pairs(rnd, 900 if quick else 9000))
     if quick and len(pairs) > 30000:
         rnd.shuffle(pairs)
         pairs = pairs[:30000]
@@ -151,6 +151,71 @@ def cancelling_sum_trees(rnd, n):
         a, b = nest(o, w, terms), nest(o, w, terms)
         if a != b and a['k'] == 'op':
             out.append([a, b])
+    return out
+
+
+def ac_shuffle(t, rnd):
+    """an AC-equivalent spelling of t: at every node of + * ^ & | the operands (nested nodes of the same operator spliced in) are
+    shuffled and regrouped at random, recursively (T_C13 re-checks the equivalence with IRVar!ACEquiv)"""
+    if t['k'] in ('int', 'id'):
+        return t
+    r = dict(t)
+    if t['k'] == 'op' and t['o'] in AC:
+        flat = []
+        def splice(x):
+            if x['k'] == 'op' and x['o'] == t['o']:
+                for y in x['a']:
+                    splice(y)
+            else:
+                flat.append(ac_shuffle(x, rnd))
+        for y in t['a']:
+            splice(y)
+        rnd.shuffle(flat)
+        while len(flat) > 2 and rnd.random() < 0.6:
+            k = rnd.choice([2, 2, 3]) if len(flat) > 3 else 2
+            i = rnd.randrange(0, len(flat) - k + 1)
+            flat[i:i + k] = [{'k': 'op', 'w': t['w'], 'o': t['o'], 'u': 0, 'a': flat[i:i + k]}]
+        r['a'] = flat
+        return r
+    for f in ('a', 'g'):
+        if f in t:
+            r[f] = [ac_shuffle(x, rnd) for x in t[f]]
+    return r
+
+
+def deep_variant_pairs(rnd, n):
+    """deeper trees (conditionals with constant conditions, neutral elements, negations among the operands of + | ^ ...) with a
+    random AC-equivalent spelling of each, and assignments to a memory cell whose address is spelled in two operand orders"""
+    from . import c05
+    out = []
+    for t in c05.random_trees(rnd, n):
+        v = ac_shuffle(t, rnd)
+        if v != t:
+            out.append([t, v])
+    zero = lambda w: {'k': 'int', 'w': w, 'v': core.limbs(0, w)}
+    for _ in range(n // 3):
+        w = rnd.choice([8, 32])
+        ids = [{'k': 'id', 'w': w, 'n': c + str(w)} for c in 'xyz']
+        cnd = {'k': 'cond', 'w': w, 'a': [rnd.choice([{'k': 'int', 'w': 8, 'v': [rnd.choice([0, 1, 2, 0x80])]},
+                                                         {'k': 'op', 'w': w, 'o': '-', 'u': 0, 'a': [ids[2]]}, ids[2]]), ids[0], ids[1]]}
+        o = rnd.choice(['+', '|', '^'])
+        items = [cnd, zero(w), rnd.choice(ids)] + ([dict(cnd)] if rnd.random() < 0.3 else [])
+        a = ac_shuffle({'k': 'op', 'w': w, 'o': o, 'u': 0, 'a': items}, rnd)
+        b = ac_shuffle({'k': 'op', 'w': w, 'o': o, 'u': 0, 'a': items}, rnd)
+        if a != b:
+            out.append([a, b])
+    for _ in range(n // 3):
+        regs = [{'k': 'id', 'w': 32, 'n': c} for c in ('x32', 'y32', 'z32')]
+        c4 = {'k': 'int', 'w': 32, 'v': core.limbs(rnd.choice([4, 8, 0x100]), 32)}
+        parts = rnd.sample(regs, 2) + [c4]
+        addr = lambda ps: {'k': 'op', 'w': 32, 'o': '+', 'u': 0, 'a': ps}
+        a1 = addr([addr(parts[:2]), parts[2]]) if rnd.random() < 0.5 else addr(parts)
+        a2 = ac_shuffle(addr(list(reversed(parts))), rnd)
+        w = rnd.choice([8, 32])
+        src = rnd.choice([regs[2] if w == 32 else {'k': 'id', 'w': 8, 'n': 'x8'}, {'k': 'int', 'w': w, 'v': core.limbs(7, w)}])
+        mk = lambda ad: {'k': 'aff', 'w': w, 'a': [{'k': 'mem', 'w': w, 'a': [ad], 'g': []}, src]}
+        if a1 != a2:
+            out.append([mk(a1), mk(a2)])
     return out
 
 
